@@ -28,6 +28,18 @@ CLAIMED = {
     "C07": ("fault_enumeration", "DESIGN.md 4 (C07), 2.5", "deterministic simulation with exhaustive structure-guided damage enumeration per seeded map / saved game: every prefix (crash points of a writer), field x boundary grid, log-width/height wrap templates, flips; memory, file and SimReader backends; sanitizers, self-consistency and prefix-refusal oracles",
             "Each run encodes one small valid map or saved game (0x1E025-byte prefix + embedded map + unit block) with the independent codec and executes all its damage variants: every truncation point (saved games: every structural boundary +-1, 4 KiB multiples, 64 seeded points), every header/length field x ~50 boundary values, (log-width, height) pairs with log-width >= 32 or products beyond 32 bits, group width x height wraps, bit flips, splices. Oracles: no sanitizer report / non-std exception / hang; an accepted result has exactly width x height tiles with width a power of two (mathematical integers); any prefix cutting into the consumed portion is refused; the undamaged saved game yields the same embedded map as the reference decode.",
             "Structure-guided damage of valid files, not all byte strings; allocation cap 32 MiB stands for finite memory."),
+    "C08": ("exploration", "DESIGN.md 4 (C08)", "seeded deterministic simulation through the stream seam: reference-encoded indexed bitmaps on four reader backends and three writer backends, independent inspection of the written bytes (pitch law, zero padding), factory and flip lanes",
+            "Seeded bitmaps from an independent BMP encoder (depths 1/4/8, widths 0..200 covering every residue of row bits mod 32, heights of both signs and 0, full and partial colour tables, arbitrary padding bytes and unchecked header fields) are read, validated, checked against the geometry laws, written, inspected byte by byte by the harness (header, rows at pitch stride, zero padding), read back and compared; factory-made bitmaps for seeded (depth,width,height[,palette[,pixels]]) round-trip to an equal object; flipping once reverses rows and negates height, twice restores. Success path fault space is empty; the seams add backend agreement (a bitmap inside a slice of a larger file), write traces and transparent I/O faults. Sampling evidence, not proof.",
+            "After the round trip a palette may be longer than the original only by black entries (the property preserves every original entry; it does not fix the table length)."),
+    "C09": ("exploration", "DESIGN.md 4 (C09)", "seeded deterministic simulation through the stream seam: tileset pictures saved in custom and standard formats and re-loaded on four backends; custom bytes compared with an independent PBMP encoder; signature peek purity at seeded stream positions; constraint violations on save and load",
+            "Seeded pictures (8-bit, 32 wide, 0..8 tiles high, both orientations, arbitrary palettes and pixels) are saved with WriteCustomTileset and WriteIndexed and loaded through the format-detecting loader on memory/file/file-slice/SimReader backends; the logical picture (rows from the top, red/green/blue/alpha) must be identical, custom loads must be top-down, the custom bytes must equal the reference encoding and be the same for both input orientations; PeekIsCustomTileset is probed with eight leading-signature classes at seeded start offsets and must neither misclassify nor move the position; width 31/33, height 33/-1 and 1/4-bit pictures are refused on save and on load from both formats. Sampling evidence, not proof.",
+            "RefPbmp constants (flag word 8, tag counts, section lengths) are transcribed from the pinned tree: detects drift from the pinned format, not errors already in it."),
+    "C10": ("exploration", "DESIGN.md 4 (C10)", "seeded deterministic simulation through the stream seam: reference-encoded PRT metadata read on four backends, deep comparison with the independent PRT model, write immutability snapshot, byte stability, writer-refusal lane",
+            "Seeded PRT files from the reference encoder (0..4 palettes with canonical and non-canonical section headers, 0..12 images, 0..9 animations, frames with every combination of the two optional-data flags, layer counts 0..127, unknown containers 0..5) are read; cross-field rules are checked on the result; every field incl. red/green/blue order and optional bytes is compared with the model; Write must not alter the object (harness dump before/after), must reproduce the input when headers are canonical, and be byte-stable over a second round trip; structures mutated to break each cross-field rule must be refused by the writer. Sampling evidence, not proof.",
+            "RefPrt layout is transcribed from the pinned tree (no independent offline description): detects drift, not errors already present at the pin."),
+    "C11": ("fault_enumeration", "DESIGN.md 4 (C11), 2.5", "deterministic simulation with exhaustive structure-guided damage enumeration per seeded BMP / tileset (both formats) / PRT: prefixes, field x boundary grid, wrap-consistent multi-field templates, flips; seeded follow-up histories of every public operation incl. sprite extraction for every index 0..count+1; sanitizers",
+            "Each run encodes one small valid file and executes all its damage variants (every truncation point, every header field x ~50 boundary values, hand-derived combinations that satisfy the size cross-checks only through 2^64 / 2^32 wrap-around such as negative widths with zero pixel bytes, height -2^31, tileset heights whose product with 32 wraps, PRT image geometry at the limits, bit flips, splices) on memory/file/SimReader backends. Whatever the loader returns is then driven through a seeded history of Validate, WriteIndexed, WriteCustomTileset, InvertScanLines, SwapRedAndBlue, ArtFile::Write and SpriteLoader::ExtractImage(i) for i in 0..count+1 and beyond against pixel files of seeded length. Oracles: no sanitizer report, assertion, non-std exception or watchdog; proper prefixes are refused.",
+            "Multi-field combinations are hand-derived templates, not solver-chosen; zero-width bitmaps are excluded from the damage worlds because a legal zero-pitch image with height 2^31 makes row loops take minutes (finite, so not a violation, but unaffordable); clang 14 UBSan does not instrument std::abs(INT_MIN)."),
     "C12": ("exploration", "DESIGN.md 4 (C12), 2.3", "seeded deterministic simulation: reader actors vs byte-vector/cursor reference model, boundary/wrap argument classes, transparent I/O faults",
             "Seeded search over operation histories (reads, partial reads, peeks, seeks, typed helpers) on memory readers, memory slices, file slices and nested slices; every step is compared with a reference cursor model, destination buffers are exactly sized heap blocks under ASan, refused operations are checked for atomicity on the following steps. Sampling evidence, not proof.",
             "Trusts the reference model in sim/scen/stream_actors.cpp and ASan/UBSan/_GLIBCXX_ASSERTIONS for memory errors; file-backed actors run over real libstdc++ filebuf on tmpfs with injected short reads and EINTR."),
